@@ -1,8 +1,34 @@
-//! C07 — not built yet.
+//! C07 — reported noise budget is the true one; fresh budgets meet the worst-case bound (engine E2).
+use crate::e2::*;
 use crate::engine::*;
 
-pub fn describe(_rep: &Report) {}
+pub fn describe(rep: &Report) {
+    rep.set_rule(
+        "same E2 exploration as C02 (programs to depth 2 + abstract fixpoint over (level, size, representation, factor)); in EVERY reached state \
+         the phase c(s) is recomputed with independent arithmetic (secret key recovered by a naive inverse transform, naive negacyclic products \
+         per prime, own CRT to big integers) and the budget bits(Q) - bits(||[t*phase]_Q||) - 1 (BGV: without t) is compared for equality with \
+         Decryptor::invariant_noise_budget; fresh budgets >= a-priori bound; negate preserves the reported budget; add/sub/add_many of k \
+         equal-factor operands lose at most ceil(log2 k)+1 bits; whenever the exact budget is > 0 the library's decryption equals the message \
+         read off the exact phase. States include ciphertexts driven to zero budget (repeated squaring down to the last level).",
+    );
+    rep.assume("BGV ciphertexts are taken out of NTT form (transform_from_ntt) before asking for the budget: the only form the function accepts");
+    rep.assume("the self-tested BigU / u128 arithmetic is the reference");
+}
 
-pub fn sections(_cfg: &RunCfg) -> Vec<Box<dyn AnySection>> {
-    vec![]
+pub fn sections(cfg: &RunCfg) -> Vec<Box<dyn AnySection>> {
+    param_sets(cfg)
+        .into_iter()
+        .map(|(name, spec, depth, abs)| {
+            Box::new(E2Section {
+                name,
+                spec,
+                oracles: Oracles { ring: false, forms: false, budget: true },
+                judged: vec!["budget"],
+                thorough: cfg.thorough(),
+                seed: cfg.seed,
+                depth,
+                abstract_closure: abs,
+            }) as Box<dyn AnySection>
+        })
+        .collect()
 }
